@@ -28,6 +28,8 @@ GRAPHS = {
     "no_stocks_scalar_flows": (["sysenv", "A"], [("sysenv", "A", ""), ("A", "sysenv", "")], []),
     "no_flows": (["sysenv", "A"], [], [("A", "te")]),
     "self_loop": (["sysenv", "A"], [("sysenv", "A", "te"), ("A", "A", "te"), ("A", "sysenv", "te")], []),
+    "two_stocks_one_process": (["sysenv", "A"], [("sysenv", "A", "te"), ("A", "sysenv", "te")], [("A", "te"), ("A", "t")]),
+    "stocks_on_two_processes": (["sysenv", "A", "B"], [("sysenv", "A", "te"), ("A", "B", "et"), ("B", "sysenv", "t")], [("A", "te"), ("B", "tr"), (None, "t")]),
 }
 
 
